@@ -1058,4 +1058,32 @@ def PLeaf.containsAllDtype (T : DTables) : PLeaf → DType → Option Bool
   | .integers, d => some (T.isInt d)
   | _, _ => none
 
+/-! ### `IntervalProd.approx_equals` (round 5) -/
+
+/-- `|a - b| <= atol` entry-wise, reduced with `all`, for two arrays of the SAME length
+(`np.isclose` with `rtol=0`) -/
+def closeAll (atol : Rat) : List Rat → List Rat → Bool
+  | a :: l, b :: l' => decide (a - b ≤ atol) && decide (b - a ≤ atol) && closeAll atol l l'
+  | _, _ => true
+
+/-- `np.allclose(a, b, atol=atol, rtol=0.0)` for 1-d finite float arrays WITH NumPy
+broadcasting: equal lengths compare entry-wise, a length-1 operand is broadcast, anything else
+raises `ValueError`. -/
+def npAllClose (atol : Rat) (a b : List Rat) : Option Bool :=
+  if a.length = b.length then some (closeAll atol a b)
+  else match a, b with
+    | [x], _ => some (b.all fun y => decide (x - y ≤ atol) && decide (y - x ≤ atol))
+    | _, [y] => some (a.all fun x => decide (x - y ≤ atol) && decide (y - x ≤ atol))
+    | _, _ => none
+
+/-- `A.approx_equals(B, atol)` for two DISTINCT interval products as coded:
+`np.allclose(self.min_pt, other.min_pt, atol=atol, rtol=0.0) and np.allclose(self.max_pt,
+other.max_pt, …)` — there is NO `ndim` guard (finding C20-F18), so NumPy broadcasting applies
+(`none` = raises `ValueError`). -/
+def intervalApproxEq (atol : Rat) (lo hi lo' hi' : List Rat) : Option Bool :=
+  match npAllClose atol lo lo' with
+  | none => none
+  | some false => some false
+  | some true => npAllClose atol hi hi'
+
 end OdlModel.Spaces
